@@ -175,7 +175,12 @@ def _src_block(name, body, scoped=False, required=False):
 
 def native_inheritance(w=None):
     try:
-        return _native_inheritance(w)
+        v, d = _native_inheritance(w)
+        # families of defects found in the hunt round and repaired since (f3dda99 required blocks, ef1cab4 block function names)
+        for fam in (native_required_anywhere, native_block_names):
+            if not v:
+                v, d = fam(w)
+        return v, d
     except Exception as ex:  # the family itself never fails on a correct tree
         return (True, f"inheritance family failed with {type(ex).__name__}: {str(ex)[:160]}")
 
